@@ -85,3 +85,9 @@ Fixpoint map_m {A B} (f : A -> option B) (l : list A) : option (list B) :=
   | [] => Some []
   | x :: r => do y <- f x; do ys <- map_m f r; Some (y :: ys)
   end.
+
+(* casts between usize (nat) and i32 (Z): truncation to 32 bits / sign extension to 64 bits *)
+Definition usize_as_i32 (n : nat) : Z :=
+  let m := (Z.of_nat n mod 4294967296)%Z in
+  if (m <? 2147483648)%Z then m else (m - 4294967296)%Z.
+Definition i32_as_usize (i : Z) : nat := Z.to_nat (i mod 18446744073709551616).
